@@ -1,6 +1,275 @@
 // Contract harnesses for ntp-proto/src/keyset.rs (child module: sees private items).
+// Property C27: stored cookie keys are restored exactly; any truncated or corrupted key file is
+// either rejected or yields a key set that can be used (never one that crashes the daemon).
+// Property C26 (id arithmetic part): rotation keeps the configured window, new cookies use the
+// newest key, ids outside the window fail to decode.
+//
+// Readers have a CONCRETE total length in the harnesses that quantify over the `len` header field
+// (so that the `for _ in 0..len` loop in `load` ends by reaching end-of-file after at most two keys);
+// header and key bytes are fully symbolic.
 #![allow(unused_imports)]
 use super::*;
+
+// zeroize's optimisation barrier is an empty inline-asm statement (unsupported by Kani): no-op model.
+fn barrier_stub<T: ?Sized>(_val: &T) {}
+
+// model of AesSivCmac512::new_random (thread_rng needs getrandom): an arbitrary 64-byte key
+fn new_random_stub() -> AesSivCmac512 {
+    key_of(kani::any())
+}
+
+fn key_of(bytes: [u8; 64]) -> AesSivCmac512 {
+    AesSivCmac512::try_from(bytes).unwrap()
+}
+
+fn same_key(k: &AesSivCmac512, bytes: &[u8]) -> bool {
+    let j: usize = kani::any();
+    kani::assume(j < 64);
+    k.key_bytes().len() == 64 && bytes.len() == 64 && k.key_bytes()[j] == bytes[j]
+}
+
+// "usable": what encode_cookie needs in order not to index out of bounds (keys[primary]).
+fn usable(ks: &KeySet) -> bool {
+    (ks.primary as usize) < ks.keys.len()
+}
+
+fn header(time: u64, id_offset: u32, primary: u32, len: u32) -> [u8; 20] {
+    let mut h = [0u8; 20];
+    h[0..8].copy_from_slice(&time.to_be_bytes());
+    h[8..12].copy_from_slice(&id_offset.to_be_bytes());
+    h[12..16].copy_from_slice(&primary.to_be_bytes());
+    h[16..20].copy_from_slice(&len.to_be_bytes());
+    h
+}
+
+// ---------------------------------------------------------------- C27: load
+// (the header-only harnesses never build a key, so they run WITHOUT the zeroize barrier stub: with
+// the stub CBMC unrolls the key-vector drop glue 66 x 64 times and needs > 600 s instead of 40 s)
+
+// post<=statement ("never loads one that crashes it", "for any corrupted key file ... rejects it or
+// loads"): load never panics, for EVERY 20-byte header (file = header only).
+crate::verif_common::harness! {
+    #[kani::unwind(66)]
+    fn c27_p_load_header_never_panics() {
+        let file: [u8; 20] = kani::any();
+        let mut rd: &[u8] = &file[..];
+        let r = KeySetProvider::load(&mut rd, kani::any());
+        kani::cover!(r.is_ok(), "a header-only file can be accepted");
+        kani::cover!(r.is_err(), "rejected");
+    }
+}
+
+// Ok(ks) => usable, for every header whose time field is sane (< 2^40 s; the other time values are
+// the subject of c27_p_load_header_never_panics) and a file holding no key.
+crate::verif_common::harness! {
+    #[kani::unwind(66)]
+    fn c27_p_load_usable_0keys() {
+        let (t, off, primary, len): (u64, u32, u32, u32) = (kani::any(), kani::any(), kani::any(), kani::any());
+        kani::assume(t < (1 << 40));
+        let file = header(t, off, primary, len);
+        let mut rd: &[u8] = &file[..];
+        let r = KeySetProvider::load(&mut rd, 1);
+        if let Ok((p, _)) = &r {
+            assert!(usable(&p.current), "a loaded key set has a primary key (primary < number of keys)");
+        }
+        kani::cover!(r.is_err(), "rejected");
+    }
+}
+
+fn load_usable_with_keys<const N: usize>(nkeys: usize) {
+    let (t, off, primary, len): (u64, u32, u32, u32) = (kani::any(), kani::any(), kani::any(), kani::any());
+    kani::assume(t < (1 << 40));
+    let mut file: [u8; N] = kani::any();
+    file[..20].copy_from_slice(&header(t, off, primary, len));
+    let mut rd: &[u8] = &file[..];
+    let hist: usize = kani::any();
+    let r = KeySetProvider::load(&mut rd, hist);
+    match &r {
+        Ok((p, time)) => {
+            let ks = &p.current;
+            assert!(len as usize <= nkeys, "more keys announced than present is rejected");
+            assert!(ks.keys.len() == len as usize && ks.id_offset == off && ks.primary == primary && p.history == hist);
+            assert!(*time == std::time::SystemTime::UNIX_EPOCH + std::time::Duration::from_secs(t));
+            let k: usize = kani::any();
+            kani::assume(k < ks.keys.len());
+            assert!(same_key(&ks.keys[k], &file[20 + 64 * k..84 + 64 * k]), "keys are the file's bytes");
+            assert!(usable(ks), "a loaded key set has a primary key (primary < number of keys)");
+        }
+        Err(_) => {
+            // the only legitimate reasons: truncated (announces more keys than present) or bad primary
+            assert!(len as usize > nkeys || primary >= len, "a healthy file is accepted");
+        }
+    }
+    kani::cover!(matches!(&r, Ok((p, _)) if p.current.keys.len() == nkeys), "all keys loaded");
+    kani::cover!(r.is_err(), "rejected");
+}
+
+// file = header + exactly one key (84 bytes), every header, every key.
+crate::verif_common::harness! {
+    #[kani::stub(zeroize::optimization_barrier, barrier_stub)]
+    #[kani::unwind(66)]
+    fn c27_tp_load_usable_1key() {
+        load_usable_with_keys::<84>(1);
+    }
+}
+
+// file = header + exactly two keys (148 bytes).
+crate::verif_common::harness! {
+    #[kani::stub(zeroize::optimization_barrier, barrier_stub)]
+    #[kani::unwind(66)]
+    fn c27_tb_load_usable_2keys() {
+        load_usable_with_keys::<148>(2);
+    }
+}
+
+// ---------------------------------------------------------------- C27: store, round trip, crash prefixes
+
+// assumption A-clock: the system clock is at or after the Unix epoch (store's own `expect`)
+fn now_stub() -> std::time::SystemTime {
+    let s: u32 = kani::any();
+    std::time::SystemTime::UNIX_EPOCH + std::time::Duration::from_secs(s as u64)
+}
+
+fn any_provider(nkeys: usize) -> (KeySetProvider, [[u8; 64]; 2]) {
+    let raw: [[u8; 64]; 2] = kani::any();
+    let mut keys = Vec::new();
+    let mut k = 0;
+    while k < nkeys {
+        keys.push(key_of(raw[k]));
+        k += 1;
+    }
+    let ks = KeySet { keys, id_offset: kani::any(), primary: kani::any() };
+    kani::assume(usable(&ks)); // invariant of every key set built by new/rotate (C26)
+    (KeySetProvider { current: Arc::new(ks), history: kani::any() }, raw)
+}
+
+fn store_load_roundtrip(nkeys: usize) {
+    let (p, raw) = any_provider(nkeys);
+    let mut file = [0u8; 148];
+    let mut wr: &mut [u8] = &mut file[..];
+    p.store(&mut wr).expect("store into a large enough file succeeds");
+    let written = 148 - wr.len();
+    assert!(written == 20 + 64 * nkeys, "store writes header + 64 bytes per key");
+    // every strict prefix (crash point after the truncating open) is rejected, the full file loads
+    let n: usize = kani::any();
+    kani::assume(n <= written);
+    let mut rd: &[u8] = &file[..n];
+    let r = KeySetProvider::load(&mut rd, p.history);
+    if n < written {
+        assert!(r.is_err(), "a strict prefix of a stored file is rejected");
+    } else {
+        let (q, _) = r.expect("the complete file loads");
+        assert!(q.current.id_offset == p.current.id_offset && q.current.primary == p.current.primary);
+        assert!(q.current.keys.len() == nkeys && q.history == p.history);
+        let k: usize = kani::any();
+        kani::assume(k < nkeys);
+        assert!(same_key(&q.current.keys[k], &raw[k][..]), "restored keys are the stored keys");
+        assert!(usable(&q.current));
+    }
+    kani::cover!(n == written, "full file reachable");
+    kani::cover!(n < written && n >= 20, "truncated key reachable");
+}
+
+crate::verif_common::harness! {
+    #[kani::stub(zeroize::optimization_barrier, barrier_stub)]
+    #[kani::unwind(66)]
+    #[kani::stub(std::time::SystemTime::now, now_stub)]
+    fn c27_tp_store_load_roundtrip_1key() {
+        store_load_roundtrip(1);
+    }
+}
+
+crate::verif_common::harness! {
+    #[kani::stub(zeroize::optimization_barrier, barrier_stub)]
+    #[kani::unwind(66)]
+    #[kani::stub(std::time::SystemTime::now, now_stub)]
+    fn c27_tb_store_load_roundtrip_2keys() {
+        store_load_roundtrip(2);
+    }
+}
+
+// ---------------------------------------------------------------- C26: new / rotate id arithmetic
+
+// wf: at least one key and the newest key (last) is the primary one.
+fn wf(ks: &KeySet) -> bool {
+    !ks.keys.is_empty() && ks.primary as usize == ks.keys.len() - 1
+}
+
+crate::verif_common::harness! {
+    #[kani::stub(zeroize::optimization_barrier, barrier_stub)]
+    #[kani::stub(crate::packet::AesSivCmac512::new_random, new_random_stub)]
+    #[kani::unwind(66)]
+    fn c26_p_new_wf() {
+        let h: usize = kani::any();
+        let p = KeySetProvider::new(h);
+        assert!(wf(&p.current) && p.current.keys.len() == 1 && p.current.id_offset == 0 && p.history == h);
+        assert!(Arc::ptr_eq(&p.get(), &p.current));
+        kani::cover!(true, "reachable");
+    }
+}
+
+// rotate, from every wf key set of 1 or 2 keys, every id_offset, every history (0 included):
+// keeps the last min(history, n) old keys in order followed by one fresh key, the fresh key is the
+// primary, id_offset advances by the number of dropped keys (wrapping), so every retained key keeps
+// its wire id and the dropped ones fall outside the window [id_offset', id_offset' + len').
+fn rotate_contract(n: usize) {
+    let (mut p, raw) = any_provider(n);
+    kani::assume(wf(&p.current));
+    let (off, hist) = (p.current.id_offset, p.history);
+    p.rotate();
+    let ks = &p.current;
+    let kept = if hist < n { hist } else { n };
+    let dropped = n - kept;
+    assert!(ks.keys.len() == kept + 1, "history old keys + the fresh one");
+    assert!(wf(ks), "newest key is primary");
+    assert!(ks.id_offset == off.wrapping_add(dropped as u32), "id offset advances by the dropped count");
+    assert!(p.history == hist);
+    let j: usize = kani::any();
+    kani::assume(j < kept);
+    // old key at old index dropped + j (wire id off + dropped + j) sits at new index j (wire id off' + j)
+    assert!(same_key(&ks.keys[j], &raw[dropped + j][..]), "retained keys keep their wire id");
+    kani::cover!(dropped == 2, "two keys dropped at once (history 0)");
+    kani::cover!(kept == 2, "both old keys retained");
+}
+
+crate::verif_common::harness! {
+    #[kani::stub(zeroize::optimization_barrier, barrier_stub)]
+    #[kani::stub(crate::packet::AesSivCmac512::new_random, new_random_stub)]
+    #[kani::unwind(66)]
+    fn c26_tb_rotate_2keys() {
+        rotate_contract(2);
+    }
+}
+
+// ---------------------------------------------------------------- C26: decode_cookie
+// NOT CHECKED: any harness that reaches KeySet::decode_cookie makes the Kani 0.68 compiler panic
+// (intrinsics.rs:243) because the real AES-SIV `decrypt` (aes/cpufeatures intrinsics) becomes
+// reachable; a model cipher via the declared source transform is needed (DESIGN.md C26: K-extract).
+
+// ---------------------------------------------------------------- canaries
+
+// FALSE: every file that consists of a header only is rejected.
+crate::verif_common::harness! {
+    #[kani::unwind(66)]
+    fn c27_canary_header_only_always_rejected() {
+        let (t, off, primary, len): (u64, u32, u32, u32) = (kani::any(), kani::any(), kani::any(), kani::any());
+        kani::assume(t < (1 << 40));
+        let file = header(t, off, primary, len);
+        let mut rd: &[u8] = &file[..];
+        assert!(KeySetProvider::load(&mut rd, 1).is_err());
+    }
+}
+
+// FALSE: a fresh provider starts with two keys.
+crate::verif_common::harness! {
+    #[kani::stub(zeroize::optimization_barrier, barrier_stub)]
+    #[kani::stub(crate::packet::AesSivCmac512::new_random, new_random_stub)]
+    #[kani::unwind(66)]
+    fn c26_canary_new_has_two_keys() {
+        let p = KeySetProvider::new(1);
+        assert!(p.current.keys.len() == 2);
+    }
+}
 
 #[cfg(all(kani, test))]
 mod replay {
